@@ -248,7 +248,7 @@ def _worker(job, chk):
     chk.count("cases")
 
 
-DOWN_STACKS = ("hash1", "hash1d", "hash2", "hash2p", "pooled", "client")
+DOWN_STACKS = ("hash1", "hash1d", "hashu1d", "hash2", "hash2p", "pooled", "client")
 DOWN_MODES = ("refused", "timeout", "reset", "unreach")
 DOWN_GAPS = (0, 0.5, 2, 61)  # none / below retry_timeout / above it / above dead_timeout
 
@@ -269,6 +269,9 @@ def _down_worker(job, chk):
         net = stacks.new_net(None, menu=simnet.MENU_CONN)
         ops.preload(net)
         obj = stacks.build(stack, net, ignore_exc=True, default_noreply=True, connect_timeout=3, timeout=7)
+        for srv in net.servers.values():
+            if not srv.items:
+                ops.preload_one(srv)
         for addr in list(net.servers):
             net.failing[addr] = mode
         results = []
